@@ -471,7 +471,7 @@ func c36Run(r *simkit.Run) {
 
 		r.Sched(simkit.SchedOpts{MaxSteps: 2000000, Stick: r.DrawStick(), Quanta: []time.Duration{time.Microsecond, time.Millisecond, 50 * time.Millisecond, time.Second}, MaxSim: time.Hour})
 
-		if r.Live() > 0 {
+		if r.Unfinished() {
 			r.Fail("liveness", "ratelimit", "clients did not finish")
 		}
 	}
